@@ -82,6 +82,16 @@ def run(ctx):
         lines.append(f"foreign {i} 0 0 {values.render(a)}")
         meta.append((i, a, False, []))
         absent += 1
+        # the same with unknown entries around the absent known ones (the tagged section is then not
+        # empty, and may hold as many entries as the class knows tags)
+        declared = {int(f.metadata["tag"]) for f in dataclasses.fields(c) if "tag" in f.metadata}
+        free = [t for t in range(0, 12) if t not in declared]
+        for nunk in ((1, 2, len(declared) + 1) if implicit or thorough else (rng.choice([1, 2]),)):
+            unk = [(t, rng.randbytes(rng.choice([0, 1, 3]))) for t in free[:nunk]]
+            u = " ".join(f"{t} {values.hex_tok(p)}" for t, p in unk)
+            lines.append(f"foreign {i} 0 {len(unk)} {u} {values.render(a)}")
+            meta.append((i, a, False, unk))
+            absent += 1
     # per-occurrence choices (`Spec.encMixed`): every structure occurrence decides for itself which
     # defaults to send and which unknown entries to add
     nmixed = 0
